@@ -143,6 +143,11 @@ def m2mpc(infile: str) -> dict:
                         raise e
                     mpc[field].append(data)
 
+    # a matrix that is still open at the end of the file means the file is incomplete
+    # (the ``bus_name`` cell array is closed by "};", which is not tracked)
+    if field is not None and field != 'bus_name':
+        raise ValueError(f'Error parsing "{infile}": mpc.{field} is not terminated by "];". The file is incomplete.')
+
     # convert mpc to np array
     mpc_array = dict()
     for key, val in mpc.items():
